@@ -125,3 +125,67 @@ def receiver_kwargs_via_api(api_kwargs, broker):
     for k in ("executor", "broker", "on_exit", "run_startup"):
         kw.pop(k, None)
     return kw
+
+
+# --------------------------------------------------------------------------- run_receiver_task running for real
+class QueueLost(Exception):
+    """a broker client's own error class for a lost connection"""
+
+
+LISTEN_FAULTS = {"connection": ConnectionError, "runtime": RuntimeError, "timeout": TimeoutError, "os": OSError,
+                 "eof": EOFError, "custom": QueueLost}
+
+
+class FlakyFeed:
+    """What a scripted broker's listen() serves while the real `taskiq.api.run_receiver_task` coroutine runs on the
+    driver's loop: the items the driver put(), in order.  `drops[j] = [k, name]` makes the j-th call of listen() (the
+    j-th receiver run_receiver_task builds) raise LISTEN_FAULTS[name] when it is asked for its (k+1)-th item - a
+    dropped connection; later calls of listen() go on with the items that were not served yet.  The fault is raised
+    only once every item served so far has been taken up by a receiver (`take(obj)`, called on entry of
+    Receiver.callback, gives the key of the item that object was served for): a message that sits in the failed
+    receiver's prefetch queue would never be executed, and the scripted connection does not drop at such a moment.
+    Bookkeeping only: `listens` (calls of listen()), `faults` ([call number, exception name]), `served` (item key ->
+    call number)."""
+
+    def __init__(self, drops):
+        self.drops = [list(d) for d in drops or []]
+        self.queue = None
+        self.listens = 0
+        self.faults = []
+        self.served = {}
+        self.handed = {}        # id(served object) -> keys it was served for and that no receiver has taken up yet
+        self.keep = []
+
+    def put(self, key, obj):
+        if self.queue is None:
+            self.queue = real_asyncio.Queue()
+        self.queue.put_nowait((key, obj))
+
+    def take(self, obj):
+        keys = self.handed.get(id(obj))
+        if not keys:
+            raise RuntimeError("harness: Receiver.callback was given an object listen() did not serve: %r" % (obj,))
+        key = keys.pop(0)
+        if not keys:
+            del self.handed[id(obj)]
+        return key
+
+    async def listen(self):
+        if self.queue is None:
+            self.queue = real_asyncio.Queue()
+        inc = self.listens
+        self.listens += 1
+        drop = self.drops[inc] if inc < len(self.drops) else None
+        n = 0
+        while True:
+            if drop is not None and n >= drop[0]:
+                while self.handed:
+                    await real_asyncio.sleep(0.001)
+                self.faults.append([inc, drop[1]])
+                raise LISTEN_FAULTS[drop[1]]("connection to the queue was lost")
+            key, obj = await self.queue.get()
+            self.served[key] = inc
+            self.handed.setdefault(id(obj), []).append(key)
+            self.keep.append(obj)
+            n += 1
+            yield obj
